@@ -130,3 +130,53 @@ Example parse_print_example :
   let j := JObj [("a\""b", JArr [JNum 100 0; JNum (-15) (-1); JStr "x\y"; JNull]); ("", JObj []); ("k", JBool true)]%string in
   parse_json (print_json j) = Some (canon j) /\ print_json j = "{""a\\\""b"":[1e2,-15e-1,""x\\y"",null],"""":{},""k"":true}"%string.
 Proof. vm_compute. split; reflexivity. Qed.
+
+(* ---------- the normal form of numbers is stable: reading what was written is idempotent ---------- *)
+Lemma strip10_step f m e : strip10 (S f) m e =
+  if Z.eqb m 0 then (0%Z, 0%Z) else if Z.eqb (Z.rem m 10) 0 then strip10 f (Z.quot m 10) (e + 1)%Z else (m, e).
+Proof. reflexivity. Qed.
+
+Lemma strip10_done : forall f m e, m <> 0%Z -> (Z.abs m < 2 ^ Z.of_nat f)%Z ->
+  exists a b, strip10 f m e = (a, b) /\ a <> 0%Z /\ Z.rem a 10 <> 0%Z.
+Proof.
+  induction f as [|f IH]; intros m e Hm Hb.
+  - cbn in Hb. lia.
+  - rewrite strip10_step. destruct (Z.eqb_spec m 0) as [|_]; [contradiction|].
+    destruct (Z.eqb_spec (Z.rem m 10) 0) as [R|R].
+    + assert (Q : Z.quot m 10 <> 0%Z).
+      { intros Q. pose proof (Z.quot_rem' m 10). lia. }
+      apply IH; [exact Q|]. rewrite Nat2Z.inj_succ, Z.pow_succ_r in Hb by lia.
+      pose proof (Z.quot_rem' m 10) as QR. rewrite R in QR.
+      assert (Z.abs m = 10 * Z.abs (Z.quot m 10))%Z by lia. lia.
+    + exists m, e. auto.
+Qed.
+
+Lemma num_norm_idem m e : num_norm (fst (num_norm m e)) (snd (num_norm m e)) = num_norm m e.
+Proof.
+  destruct (Z.eq_dec m 0) as [->|Hm].
+  - reflexivity.
+  - unfold num_norm at 2 3 4. 
+    destruct (strip10_done (Z.to_nat (Z.log2 (Z.abs m)) + 1) m e Hm) as (a & b & E & Ha & Hr).
+    { replace (Z.of_nat (Z.to_nat (Z.log2 (Z.abs m)) + 1)) with (Z.succ (Z.log2 (Z.abs m))).
+      - apply Z.log2_spec. lia.
+      - pose proof (Z.log2_nonneg (Z.abs m)). lia. }
+    rewrite E. cbn [fst snd]. unfold num_norm.
+    replace (Z.to_nat (Z.log2 (Z.abs a)) + 1) with (S (Z.to_nat (Z.log2 (Z.abs a)))) by lia.
+    rewrite strip10_step. destruct (Z.eqb_spec a 0); [contradiction|]. destruct (Z.eqb_spec (Z.rem a 10) 0); [contradiction|]. reflexivity.
+Qed.
+
+Lemma canon_nums_normal : forall j, nums_normal (canon j).
+Proof.
+  induction j as [ |b|m e|s|l IHl|m IHm] using json_tree_ind; try exact I.
+  - cbn [canon nums_normal]. rewrite num_norm_idem. destruct (num_norm m e); reflexivity.
+  - cbn [canon nums_normal]. induction IHl as [|x l Hx Hl IH]; [exact I|]. cbn [map]. split; assumption.
+  - cbn [canon nums_normal]. induction IHm as [|[k x] m Hx Hm IH]; [exact I|]. cbn [map snd] in *. split; assumption.
+Qed.
+
+Theorem canon_idem j : canon (canon j) = canon j.
+Proof. apply canon_normal, canon_nums_normal. Qed.
+
+(* what the reader returns is a fixed point of writing and reading: a second pass changes nothing *)
+Theorem text_normalisation_is_idempotent j j' :
+  parse_json (print_json j) = Some j' -> parse_json (print_json j') = Some j'.
+Proof. rewrite parse_print. intros H. inversion H. subst j'. rewrite parse_print, canon_idem. reflexivity. Qed.
